@@ -78,12 +78,40 @@ fn header(kind_tag: &str, inp: &Input, s: &mut String) {
 pub fn run(kind: &str, ctx: &Ctx, out: &mut dyn Write) {
     let mut rng = Rng::new(ctx.seed ^ 0x5eed_0006);
     let quick = ctx.tier != "thorough";
-    let srcs = sources(ctx, &mut rng);
+    let mut srcs = sources(ctx, &mut rng);
+    if kind == "c06" {
+        // models with more than 20 features: only there an assumption SET can have more than 20
+        // literals (the cursor key is de-duplicated since F19), i.e. reach the default counting
+        // strategy from enumerate; no truth table at that size (model and no-panic oracle only)
+        for i in 0..(if quick { 6 } else { 24 }) {
+            let n0 = 3 + rng.below(3) as u32;
+            let m = 1 + rng.below(2 * n0 as u64) as usize;
+            let cnf = crate::gen::random_cnf(&mut rng, n0, m, 3);
+            srcs.push(crate::k_c01::Source { cnf, n: 22 + rng.below(4) as u32, desc: format!("wide#{} n0={} m={} (> 20 features)", i, n0, m) });
+        }
+    }
     let mut k = 0;
     for src in srcs.iter() {
-        let inp = match make_input(format!("{}-{}", kind, k), src, &mut rng) {
-            Some(i) => i,
-            None => continue,
+        let wide_true = kind == "c06" && src.n > 20 && rng.coin();
+        let inp = if wide_true {
+            // a c2d file that keeps its true nodes (below and nodes)
+            let opts = crate::gen::Opts::random(&mut rng, src.n);
+            match crate::gen::compile(&src.cnf, &opts) {
+                Some(dag) => Input {
+                    id: format!("{}-{}", kind, k),
+                    n: src.n,
+                    format: "c2d",
+                    lines: crate::gen::emit_c2d(&dag, src.n, &crate::gen::C2dOpts { keep_true: true, keep_false: false }),
+                    desc: format!("{} | {} c2d keep_true=1", src.desc, opts.describe()),
+                    models: None,
+                },
+                None => continue,
+            }
+        } else {
+            match make_input(format!("{}-{}", kind, k), src, &mut rng) {
+                Some(i) => i,
+                None => continue,
+            }
         };
         k += 1;
         let mut s = String::new();
@@ -109,6 +137,11 @@ pub fn run(kind: &str, ctx: &Ctx, out: &mut dyn Write) {
                 }
                 lists.push(random_list(&mut rng, n, 2, false)); // possibly contradictory
                 lists.push(random_list(&mut rng, n, 22, true)); // default-strategy route
+                if n > 20 {
+                    // 21 literals over distinct features (survives the de-duplication of the key)
+                    let l: Vec<i32> = ((n - 20)..=n).map(|f| if rng.coin() { f as i32 } else { -(f as i32) }).collect();
+                    lists.push(l);
+                }
                 match kind {
                     "c06" => {
                         for a in lists.iter() {
